@@ -54,11 +54,16 @@ func startReplicas(r *vfw.Run, s *scen.Scn) []*simnode.Node {
 }
 
 func runC02(r *vfw.Run) {
-	s := scen.New(r, ledgerOpts(r))
+	o := ledgerOpts(r)
+	o.Contracts = r.Choose("c02.contracts", 3) == 0
+	s := scen.New(r, o)
 	defer s.Close()
 	nodes := startReplicas(r, s)
 	l := scen.NewLedger(s)
 	l.Mix.Adversarial = 4
+	if o.Contracts {
+		l.Mix.Contracts = 3 // contract results depend on the block they run in (number, time, seed): builder and validators must agree on it
+	}
 	if r.Choose("cfg.bringonline", 4) != 0 {
 		l.BringOnline(nodes)
 	}
@@ -88,6 +93,9 @@ func runC02(r *vfw.Run) {
 		cert := l.BuildCert(nodes[0], rr)
 		l.InsertAll(nodes, rr, "C02")
 		l.WriteCert(nodes, rr, cert)
+		if l.Mix.Contracts > 0 {
+			s.NoteContracts(nodes[0], rr.Block)
+		}
 		l.Agree(nodes, "C02")
 		r.State(fmt.Sprintf("%d/%x", rr.Height, nodes[0].App.State.Root().Bytes()[:8]))
 		if rr.Flags != 0 {
